@@ -811,6 +811,78 @@ class Selector:
         return results
 
 
+def _inline_generator_loops(stmts, fns):
+    """`for T in G(): B  [else: E]` with G a module-level generator function without parameters is, by the semantics of generators,
+       G's body with every statement `yield X` replaced by `T = X; B`, a `break` in B ending everything, and E run when G's body
+       completes.  Written as a helper (executed in place by the executor):
+
+           def __gen_G():  global <names bound by T and B> ;  <G's body, yields replaced;  break -> return 1>
+           __r = __gen_G()
+           if __r is None: E
+
+       Only the statement form of `yield`, and loop bodies without `continue` / `return` / nested definitions, are rewritten."""
+    from .loader import clone
+    out = []
+    for s in stmts:
+        g = fns.get(s.iter.func.id) if isinstance(s, ast.For) and isinstance(s.iter, ast.Call) and isinstance(s.iter.func, ast.Name) \
+            and not s.iter.args and not s.iter.keywords else None
+        if g is None or g.args.args or not any(isinstance(x, ast.Yield) for x in ast.walk(g)):
+            out.append(s)
+            continue
+        ys = [x for x in ast.walk(g) if isinstance(x, (ast.Yield, ast.YieldFrom))]
+        stmt_yields = [x for x in ast.walk(g) if isinstance(x, ast.Expr) and isinstance(x.value, ast.Yield) and x.value.value is not None]
+        if len(ys) != len(stmt_yields) or any(isinstance(x, (ast.Continue, ast.Return, ast.FunctionDef, ast.Lambda, ast.Yield)) for b in s.body for x in ast.walk(b)) \
+                or any(isinstance(x, ast.Return) for x in ast.walk(g)):
+            out.append(s)
+            continue
+
+        def body_copy():
+            class _B(ast.NodeTransformer):
+                depth = 0
+
+                def visit_For(self, n):
+                    self.depth += 1
+                    self.generic_visit(n)
+                    self.depth -= 1
+                    return n
+                visit_While = visit_For
+
+                def visit_Break(self, n):
+                    if self.depth == 0:
+                        return ast.copy_location(ast.Return(value=ast.Constant(value=1)), n)
+                    return n
+            return [_B().visit(clone(b)) for b in s.body]
+
+        class _Y(ast.NodeTransformer):
+            def visit_Expr(self, n):
+                if isinstance(n.value, ast.Yield):
+                    tgt = clone(s.target)
+                    for x in ast.walk(tgt):
+                        if isinstance(x, ast.Name):
+                            x.ctx = ast.Store()
+                    return [ast.copy_location(ast.Assign(targets=[tgt], value=n.value.value), n)] + body_copy()
+                return n
+        names = sorted({x.id for x in ast.walk(s.target) if isinstance(x, ast.Name)} | {
+            x.id for b in s.body for x in ast.walk(b) if isinstance(x, ast.Name) and isinstance(x.ctx, ast.Store)})
+        gname = "__gen_%s" % g.name
+        fn = ast.FunctionDef(name=gname, args=ast.arguments(posonlyargs=[], args=[], kwonlyargs=[], kw_defaults=[], defaults=[]),
+                             body=[ast.Global(names=names)] + [_Y().visit(clone(b)) for b in g.body if not (
+                                 isinstance(b, ast.Expr) and isinstance(b.value, ast.Constant))], decorator_list=[])
+        # flatten lists produced by visit_Expr at statement level
+        ast.copy_location(fn, s)
+        ast.fix_missing_locations(fn)
+        fns[gname] = fn
+        call = ast.copy_location(ast.Assign(targets=[ast.Name(id="__r_" + g.name, ctx=ast.Store())],
+                                            value=ast.Call(func=ast.Name(id=gname, ctx=ast.Load()), args=[], keywords=[])), s)
+        out.append(call)
+        if s.orelse:
+            out.append(ast.copy_location(ast.If(test=ast.Compare(left=ast.Name(id="__r_" + g.name, ctx=ast.Load()), ops=[ast.Is()],
+                                                                 comparators=[ast.Constant(value=None)]), body=s.orelse, orelse=[]), s))
+        for o in out[-2:]:
+            ast.fix_missing_locations(o)
+    return out
+
+
 def run_selection(repo, module, regname, regnode, rows):
     """Outcomes of the module-level code of `module` from the registry definition to the last statement that can still
     assign `backend` / `backend_name`."""
@@ -844,6 +916,7 @@ def run_selection(repo, module, regname, regnode, rows):
         if isinstance(n, ast.Assign) and len(n.targets) == 1 and isinstance(n.targets[0], ast.Name) and isinstance(n.value, ast.Constant):
             st.env[n.targets[0].id] = ("none",) if n.value.value is None else ("const", n.value.value)
     stmts = [n for n in body[start:last + 1]]
+    stmts = _inline_generator_loops(stmts, sel.fns)
     try:
         outs = sel.block(stmts, st)
     except Unsupported as e:
